@@ -169,7 +169,7 @@ class ListParameter(Parameter):
 
 class TupleParameter(Parameter):
     def clean(self, value, program=None, lineno=None):
-        if not (value == [] or isinstance(value, dict)):
+        if not (isinstance(value, dict) or (isinstance(value, list) and value == [])):
             raise ParameterNotValid(value, "Tuple", lineno)
 
         return (
